@@ -674,6 +674,12 @@ pub fn lfp_worklist(prog: &Prog, inp: &Inputs, cap: usize) -> Option<Vec<u16>> {
 /// Values for an all-`Fb` program: members of cyclic SCCs return their fallback, the rest
 /// their body's value (evaluated over the condensation in dependency order).
 pub fn fallback_values(prog: &Prog, inp: &Inputs) -> Vec<u16> {
+    fallback_values_with(prog, inp, &BTreeMap::new())
+}
+
+/// Like `fallback_values`, but cycle members listed in `over` hold the given value instead of
+/// their fallback (used only to *classify* an already detected mismatch, never as an oracle).
+pub fn fallback_values_with(prog: &Prog, inp: &Inputs, over: &BTreeMap<usize, u16>) -> Vec<u16> {
     let edges = call_edges(prog, inp);
     let (comp, cyc) = sccs(&edges);
     let n = prog.nodes.len();
@@ -681,7 +687,7 @@ pub fn fallback_values(prog: &Prog, inp: &Inputs) -> Vec<u16> {
     let mut done = vec![false; n];
     for i in 0..n {
         if cyc[comp[i]] {
-            vals[i] = prog.nodes[i].fb;
+            vals[i] = over.get(&i).copied().unwrap_or(prog.nodes[i].fb);
             done[i] = true;
         }
     }
